@@ -1086,7 +1086,7 @@ func genHistory(r *Rng, guarded bool, long bool) Sx {
 }
 
 func gen(r *Rng, tier string, emit func(Sx)) {
-	n := 2500
+	n := 1500
 	if tier == "thorough" {
 		n = 60000
 	}
